@@ -1,1 +1,282 @@
-/-! C12 — property theorems (stub: nothing proved yet). -/
+import B6.Lemmas.MutableRoot
+/-!
+# C12 — Mutable overlay world behaves like a map of features under any edits
+
+Model: `B6.Model.Mutable` (mutable.go after the C12/C13/C14 `fix:` patches).  Spec: `B6.Spec.World`
+(feature id ⇀ tag key ⇀ value).  `tagOf v id k` is what `v.FindFeatureByID(id).Get(k)` shows
+(`none` = no such feature), so agreement on `tagOf` is agreement on lookup, existence and tags.
+
+Standing assumptions (all satisfied by worlds built by the code itself, see the `example`s):
+`b.IdsOK` — the base hands out, under an id, a feature carrying that id; `l.FeatsId` — same for the
+overlay table (it holds initially and is preserved, `featsId_step`).
+-/
+namespace B6.Props.C12
+open B6.Model.Mutable B6.Spec.World
+
+/-- **One step.** Whatever the operation and whatever the world answers (except the "partially
+applied" answer of a merged change, which C13 rules out), the tag reads of the world afterwards are
+those of the per-feature map after the same operation — applied when accepted, untouched when
+rejected. -/
+theorem overlay_refines_map {b : View} {o : Oracle} {l l' : Layer} {op : Op} {r : Option Err} {w : World}
+    (hb : b.IdsOK) (hl : l.FeatsId) (hw : LRefines b l w) (h : l.step b o op = (l', r))
+    (hp : r ≠ some .partiallyApplied) :
+    LRefines b l' (step w op r) := by
+  cases op with
+  | addFeature f =>
+    simp only [Layer.step] at h
+    cases r with
+    | none => exact refines_addFeature hb hl hw h
+    | some e => exact refines_addFeature_err hw h
+  | addTag id t =>
+    simp only [Layer.step] at h
+    cases hs : l.addTag b id t with
+    | ok l1 =>
+      rw [hs] at h
+      simp only [Prod.mk.injEq] at h
+      obtain ⟨rfl, rfl⟩ := h
+      exact refines_addTag hb hl hw hs
+    | error e =>
+      rw [hs] at h
+      simp only [Prod.mk.injEq] at h
+      obtain ⟨rfl, rfl⟩ := h
+      exact hw
+  | removeTag id k =>
+    simp only [Layer.step] at h
+    cases hs : l.removeTag b id k with
+    | ok l1 =>
+      rw [hs] at h
+      simp only [Prod.mk.injEq] at h
+      obtain ⟨rfl, rfl⟩ := h
+      exact refines_removeTag hb hl hw hs
+    | error e =>
+      rw [hs] at h
+      simp only [Prod.mk.injEq] at h
+      obtain ⟨rfl, rfl⟩ := h
+      exact hw
+  | merged cs =>
+    simp only [Layer.step] at h
+    rcases mergedApply_cases b o l cs with ⟨e, _, he, _⟩ | ⟨l1, h1, h2⟩ | ⟨l1, e, h1, _, _⟩
+    · rw [he] at h
+      simp only [Prod.mk.injEq] at h
+      obtain ⟨rfl, rfl⟩ := h
+      exact hw
+    · rw [h1] at h
+      simp only [Prod.mk.injEq] at h
+      obtain ⟨rfl, rfl⟩ := h
+      exact (applyAll_spec hb cs l l1 none hl h2).2.2 rfl w hw
+    · rw [h1] at h
+      simp only [Prod.mk.injEq] at h
+      obtain ⟨_, rfl⟩ := h
+      exact absurd rfl hp
+
+/-- the overlay table stays consistent under every operation and every answer -/
+theorem featsId_step {b : View} {o : Oracle} {l l' : Layer} {op : Op} {r : Option Err}
+    (hb : b.IdsOK) (hl : l.FeatsId) (h : l.step b o op = (l', r)) : l'.FeatsId := by
+  cases op with
+  | addFeature f => exact featsId_addFeature hl h
+  | addTag id t =>
+    simp only [Layer.step] at h
+    cases hs : l.addTag b id t with
+    | ok l1 =>
+      rw [hs] at h; simp only [Prod.mk.injEq] at h; obtain ⟨rfl, _⟩ := h
+      exact featsId_addTag hl hs
+    | error e => rw [hs] at h; simp only [Prod.mk.injEq] at h; obtain ⟨rfl, _⟩ := h; exact hl
+  | removeTag id k =>
+    simp only [Layer.step] at h
+    cases hs : l.removeTag b id k with
+    | ok l1 =>
+      rw [hs] at h; simp only [Prod.mk.injEq] at h; obtain ⟨rfl, _⟩ := h
+      exact featsId_removeTag hl hs
+    | error e => rw [hs] at h; simp only [Prod.mk.injEq] at h; obtain ⟨rfl, _⟩ := h; exact hl
+  | merged cs =>
+    simp only [Layer.step] at h
+    rcases mergedApply_cases b o l cs with ⟨e, _, he, _⟩ | ⟨l1, h1, h2⟩ | ⟨l1, e, h1, h2, _⟩
+    · rw [he] at h; simp only [Prod.mk.injEq] at h; obtain ⟨rfl, _⟩ := h; exact hl
+    · rw [h1] at h; simp only [Prod.mk.injEq] at h; obtain ⟨rfl, _⟩ := h
+      exact (applyAll_spec hb cs l l1 none hl h2).1
+    · rw [h1] at h; simp only [Prod.mk.injEq] at h; obtain ⟨rfl, _⟩ := h
+      exact (applyAll_spec hb cs l l1 (some e) hl h2).1
+
+/-- **Any history.** After any sequence of operations, every tag read equals the read of the map
+that went through the same operations with the same answers. -/
+theorem overlay_refines_map_ops {b : View} {o : Oracle} (hb : b.IdsOK) (ops : List Op) :
+    ∀ (l : Layer) (w : World), l.FeatsId → LRefines b l w →
+      (∀ r ∈ (runOps b o l ops).2, r ≠ some Err.partiallyApplied) →
+      LRefines b (runOps b o l ops).1 (run w ops (runOps b o l ops).2) := by
+  induction ops with
+  | nil => intro l w _ hw _; exact hw
+  | cons op rest ih =>
+    intro l w hl hw hp
+    simp only [runOps, run]
+    have hstep : l.step b o op = ((l.step b o op).1, (l.step b o op).2) := rfl
+    have hp0 : (l.step b o op).2 ≠ some Err.partiallyApplied := hp _ (by simp [runOps])
+    apply ih _ _ (featsId_step hb hl hstep) (overlay_refines_map hb hl hw hstep hp0)
+    intro r hr
+    exact hp r (by simp [runOps, hr])
+
+/-- tag reads of an id that an operation does not name are not changed by it — whatever it answers -/
+theorem step_frame {b : View} {o : Oracle} {l l' : Layer} {op : Op} {r : Option Err}
+    (hb : b.IdsOK) (hl : l.FeatsId) (h : l.step b o op = (l', r)) : Frame b l l' (opIds op) := by
+  cases op with
+  | addFeature f => exact frame_addFeature hb hl h
+  | addTag id t =>
+    simp only [Layer.step] at h
+    cases hs : l.addTag b id t with
+    | ok l1 =>
+      rw [hs] at h; simp only [Prod.mk.injEq] at h; obtain ⟨rfl, _⟩ := h
+      exact frame_addTag hb hl hs
+    | error e => rw [hs] at h; simp only [Prod.mk.injEq] at h; obtain ⟨rfl, _⟩ := h; exact Frame.refl _ _ _
+  | removeTag id k =>
+    simp only [Layer.step] at h
+    cases hs : l.removeTag b id k with
+    | ok l1 =>
+      rw [hs] at h; simp only [Prod.mk.injEq] at h; obtain ⟨rfl, _⟩ := h
+      exact frame_removeTag hb hl hs
+    | error e => rw [hs] at h; simp only [Prod.mk.injEq] at h; obtain ⟨rfl, _⟩ := h; exact Frame.refl _ _ _
+  | merged cs =>
+    simp only [Layer.step] at h
+    rcases mergedApply_cases b o l cs with ⟨e, _, he, _⟩ | ⟨l1, h1, h2⟩ | ⟨l1, e, h1, h2, _⟩
+    · rw [he] at h; simp only [Prod.mk.injEq] at h; obtain ⟨rfl, _⟩ := h; exact Frame.refl _ _ _
+    · rw [h1] at h; simp only [Prod.mk.injEq] at h; obtain ⟨rfl, _⟩ := h
+      exact (applyAll_spec hb cs l l1 none hl h2).2.1
+    · rw [h1] at h; simp only [Prod.mk.injEq] at h; obtain ⟨rfl, _⟩ := h
+      exact (applyAll_spec hb cs l l1 (some e) hl h2).2.1
+
+theorem runOps_frame {b : View} {o : Oracle} (hb : b.IdsOK) (ops : List Op) :
+    ∀ (l : Layer), l.FeatsId → Frame b l (runOps b o l ops).1 (ops.flatMap opIds) := by
+  induction ops with
+  | nil => intro l _; exact Frame.refl _ _ _
+  | cons op rest ih =>
+    intro l hl
+    have hstep : l.step b o op = ((l.step b o op).1, (l.step b o op).2) := rfl
+    simp only [runOps, List.flatMap_cons]
+    exact (step_frame hb hl hstep).trans (ih _ (featsId_step hb hl hstep))
+
+/-- a fresh overlay shows the base as it is -/
+theorem tagOf_empty (b : View) (id : Id) (k : Key) :
+    tagOf (Layer.empty.view b (Layer.empty.loc b)) id k = tagOf b id k := by
+  rw [tagOf_view, layerTag_none (by simp [Layer.empty])]
+  simp only [Layer.empty, modsOf, AMap.get_nil, modLookup]
+  cases tagOf b id k <;> rfl
+
+/-- **Untouched base.** A feature that no operation of the history names reads, after the history, as
+in the base (existence and every tag) — including histories with rejected calls and the referrers
+that `AddFeature` copies into the overlay on the side. -/
+theorem untouched_base {b : View} {o : Oracle} (hb : b.IdsOK) (ops : List Op) (id : Id)
+    (hid : id ∉ ops.flatMap opIds) (k : Key) :
+    tagOf ((runOps b o Layer.empty ops).1.view b ((runOps b o Layer.empty ops).1.loc b)) id k = tagOf b id k := by
+  have hl : Layer.empty.FeatsId := by intro i f h; simp [Layer.empty] at h
+  rw [runOps_frame hb ops Layer.empty hl id hid k, tagOf_empty]
+
+/-! ## The search index -/
+
+/-- **Index invariant, one step.** `l.WF b` bundles: the overlay table is keyed consistently, every
+token's posting list is strictly increasing and holds exactly the overlay features whose current tags
+produce the token (`IndexInv`), tag lists have one tag per key and `=`-free keys, recorded
+modifications only concern plain keys.  Every operation, whatever it answers, preserves it (so C03's
+search results over the index are right after every op). -/
+theorem index_inv_step {b : View} {o : Oracle} {l l' : Layer} {op : Op} {r : Option Err}
+    (hb : b.IdsOK) (hbt : b.TagsOK) (hw : l.WF b) (hop : opOK op) (h : l.step b o op = (l', r)) :
+    IndexInv l' := (wf_step hb hbt hw hop h).index
+
+/-- **Index invariant, any history** from a fresh overlay. -/
+theorem index_inv_ops {b : View} {o : Oracle} (hb : b.IdsOK) (hbt : b.TagsOK) (ops : List Op)
+    (hop : ∀ op ∈ ops, opOK op) : IndexInv (runOps b o Layer.empty ops).1 :=
+  (wf_runOps hb hbt ops Layer.empty (wf_empty b) hop).index
+
+/-- **Tag search refines the map.** If the base's own tag search is exact, then after any state reached
+(`l.WF b`) every single-token search of the world returns exactly — and in id order — the features
+whose tags in the per-feature map produce the token. -/
+theorem search_refines_map {b : View} {l : Layer} {w : World}
+    (hbs : b.SearchOK) (hbt : b.TagsOK) (hw : l.WF b) (hr : LRefines b l w) (hn : KeysNodup w) (t : Token) :
+    (l.view b (l.loc b)).search t = matching w t := by
+  apply sorted_ext ((search_ok hbs hw (l.loc b)) t).1 (sorted_matching w t)
+  intro id
+  rw [((search_ok hbs hw (l.loc b)) t).2 id, mem_matching]
+  have htags := view_tagsOK hbt hw.tags hw.mods (l.loc b)
+  constructor
+  · rintro ⟨fv, hfv, ht⟩
+    have href : ∀ k, B6.Spec.World.tagOf w id k = some (AMap.get fv.f.tags k) := by
+      intro k; rw [← hr id k]; simp [B6.Model.Mutable.tagOf, hfv]
+    cases hm : find w id with
+    | none => have := href ""; simp [B6.Spec.World.tagOf, hm] at this
+    | some m =>
+      refine ⟨by simp [ids, AMap.mem_keys_iff]; simp only [find] at hm; rw [hm]; rfl, ?_⟩
+      obtain ⟨tg, htg, htok⟩ := (mem_tokensFor fv.f t).1 ht
+      have hg : AMap.get fv.f.tags tg.1 = some tg.2 := get_eq_some_of_mem (htags id fv hfv).1 htg
+      have hk := href tg.1
+      simp only [B6.Spec.World.tagOf, hm, Option.map_some, Option.some.injEq] at hk
+      rw [hg] at hk
+      simp only [produces, hm, List.any_eq_true, beq_iff_eq]
+      exact ⟨tg, AMap.get_some_mem hk, htok⟩
+  · rintro ⟨hid, hp⟩
+    cases hm : find w id with
+    | none => simp [produces, hm] at hp
+    | some m =>
+      simp only [produces, hm, List.any_eq_true, beq_iff_eq] at hp
+      obtain ⟨e, he, htok⟩ := hp
+      have hk := hr id e.1
+      simp only [B6.Spec.World.tagOf, hm, Option.map_some] at hk
+      cases hfv : (l.view b (l.loc b)).find id with
+      | none => simp [B6.Model.Mutable.tagOf, hfv] at hk
+      | some fv =>
+        refine ⟨fv, rfl, (mem_tokensFor fv.f t).2 ⟨e, ?_, htok⟩⟩
+        simp only [B6.Model.Mutable.tagOf, hfv, Option.map_some, Option.some.injEq] at hk
+        rw [(mem_iff_get (hn id m hm) e.1 e.2).1 he] at hk
+        exact AMap.get_some_mem hk
+
+/-- **Enumeration refines the map.** `EachFeature` visits exactly the features of the map. -/
+theorem each_refines_map {b : View} {l : Layer} {w : World}
+    (hbi : b.IdsExact) (hr : LRefines b l w) (id : Id) :
+    id ∈ (l.view b (l.loc b)).ids ↔ id ∈ ids w := by
+  rw [ids_exact hbi (l.loc b) id, ids, AMap.mem_keys_iff]
+  have := hr id ""
+  simp only [B6.Model.Mutable.tagOf, B6.Spec.World.tagOf, find] at this
+  cases h1 : (l.view b (l.loc b)).find id <;> cases h2 : AMap.get w id <;> simp [h1, h2] at this ⊢
+
+/-! ## Non-vacuity: the drivers' root world satisfies every standing assumption -/
+
+/-- two points, a path through them, searchable and plain tags, a string and an int value -/
+def exampleRoot : List Feature :=
+  [⟨1, [("name", ⟨"s", "a"⟩), ("#amenity", ⟨"s", "cafe"⟩)], .point (515370213, -1250817)⟩,
+   ⟨2, [], .point (515360127, -1251339)⟩,
+   ⟨1005, [("@lit", ⟨"i", "5"⟩)], .path [1, 2]⟩]
+
+theorem keyOK_of_decide (k : Key) (h : k.toList.contains '=' = false) : keyOK k := by
+  unfold keyOK; intro hm; have : k.toList.contains '=' = true := by simpa using hm
+  rw [h] at this; cases this
+
+theorem exampleRoot_tagsOK : ∀ f ∈ exampleRoot, TagsOK f.tags := by
+  intro f hf
+  simp only [exampleRoot, List.mem_cons, List.not_mem_nil, or_false] at hf
+  rcases hf with rfl | rfl | rfl
+  · refine ⟨by decide, fun tg htg => ?_⟩
+    simp only [List.mem_cons, List.not_mem_nil, or_false] at htg
+    rcases htg with rfl | rfl <;> exact keyOK_of_decide _ (by decide)
+  · exact ⟨by decide, by simp⟩
+  · refine ⟨by decide, fun tg htg => ?_⟩
+    simp only [List.mem_cons, List.not_mem_nil, or_false] at htg
+    rcases htg with rfl
+    exact keyOK_of_decide _ (by decide)
+
+/-- the hypotheses of `overlay_refines_map_ops`, `untouched_base`, `index_inv_ops`,
+`search_refines_map`, `each_refines_map` hold for a fresh overlay over `exampleRoot`, and the history
+`AddTag name (plain) ; AddTag #amenity (searchable)` on base point 2 — the witness of the repaired
+defect — keeps `name` and is found by the search. -/
+example : (rootView exampleRoot).IdsOK ∧ (rootView exampleRoot).TagsOK ∧ (rootView exampleRoot).SearchOK ∧
+    (rootView exampleRoot).IdsExact ∧ (Layer.empty.WF (rootView exampleRoot)) :=
+  ⟨rootView_idsOK _, rootView_tagsOK _ exampleRoot_tagsOK, rootView_searchOK _, rootView_idsExact _, wf_empty _⟩
+
+def exampleOps : List Op :=
+  [.addTag 2 ("name", ⟨"s", "plain"⟩), .addTag 2 ("#amenity", ⟨"s", "cafe"⟩)]
+
+example : opOK (exampleOps[0]) ∧ opOK (exampleOps[1]) :=
+  ⟨keyOK_of_decide _ (by decide), keyOK_of_decide _ (by decide)⟩
+
+example :
+    let l := (runOps (rootView exampleRoot) ⟨fun _ => true, fun _ => false⟩ Layer.empty exampleOps).1
+    let v := l.view (rootView exampleRoot) (l.loc (rootView exampleRoot))
+    tagOf v 2 "name" = some (some ⟨"s", "plain"⟩) ∧ v.search "amenity=cafe" = [1, 2] := by
+  decide
+
+end B6.Props.C12
